@@ -25,6 +25,9 @@ REGEXES = [
     ('"[^"]*"', False, ['"a"', '""', '"b c"']),
 ]
 RE_TABLE = {p: (n, s) for p, n, s in REGEXES}
+# binary regexes (pattern text as written in a grammar, nullable, samples as latin-1 text)
+BRE_TABLE = {'[\\x20-\\x7E]+': (False, ['a', 'xyz', 'A1 ']), '[\\x01-\\x0F]': (False, ['\x01', '\x0f']),
+             '[\\x00-\\xFF]': (False, ['\x00', 'q', '\xff'])}
 # extra patterns only used as ignorables (never sampled as content)
 IGNORE_PATTERNS = [' +', '\\n+', '[ \\n]+', '#[^\\n]*', '~+', '_+']
 IGNORE_SAMPLES = {' +': [' ', '  '], '\\n+': ['\n'], '[ \\n]+': [' ', '\n', ' \n '], '#[^\\n]*': ['#c'],
@@ -51,6 +54,12 @@ def render_expr(e):
         return _q(e[1])
     if k == 're':
         return '/' + e[1] + '/'
+    if k == 'byte':
+        return '0x%02X' % e[1]
+    if k == 'bre':
+        return 'b/' + e[1] + '/'
+    if k == 'blit':
+        return 'b' + _q(e[1])
     if k == 'ref':
         return e[1]
     if k == 'super':
@@ -154,7 +163,7 @@ def render_module(m, name=None, extends=None):
 
 def children(e):
     k = e[0]
-    if k in ('lit', 're', 'ref', 'super', 'py', 'hook'):
+    if k in ('lit', 're', 'ref', 'super', 'py', 'hook', 'byte', 'bre', 'blit'):
         return []
     if k in ('seq', 'alt', 'longest', 'skip'):
         return list(e[1:])
@@ -223,6 +232,12 @@ def nullable(e, env):
         return len(e[1]) == 0
     if k == 're':
         return RE_TABLE.get(e[1], (True, None))[0]
+    if k == 'byte':
+        return False
+    if k == 'blit':
+        return len(e[1]) == 0
+    if k == 'bre':
+        return BRE_TABLE.get(e[1], (True, None))[0]
     if k in ('ref', 'super'):
         return env.get(e[1], True)
     if k == 'seq':
@@ -433,7 +448,7 @@ class Gen:
         """Wrap random sub-expressions with value/predicate probes."""
         r = self.rng
         k = e[0]
-        if k in ('lit', 're', 'ref', 'super'):
+        if k in ('lit', 're', 'ref', 'super', 'byte', 'bre', 'blit'):
             if r.random() < p:
                 return [r.choice(['hookv', 'hookv', 'hookp']), self.new_tag(), e]
             return e
@@ -768,6 +783,37 @@ def tour_root(rng, named):
     return {'named': bool(named), 'extends': None, 'items': items}, g, texts
 
 
+def binary_root(rng, named):
+    """A binary grammar (byte literals, b"..." strings, binary regexes) in the style of the
+    repository's byte-string tests; its inputs are bytes.  Returns (spec, gen, texts as latin-1 str)."""
+    hook = lambda tag, e: (['right', ['hook', tag], e] if rng.random() < 0.7 else e)
+    items = [
+        {'k': 'rule', 'name': 'start', 'expr': hook('h1', ['star', ['ref', 'Doc']])},
+        {'k': 'class', 'name': 'Doc', 'fields': [
+            {'name': 'h', 'expr': ['hook', 'h2'], 'mod': 'pass'},
+            {'name': 'version', 'expr': ['byte', 0x65], 'mod': ''},
+            {'name': 'open', 'expr': ['alt', ['byte', 0xFF], ['byte', 0xFE]], 'mod': ''},
+            {'name': 'body', 'expr': ['ref', 'Body'], 'mod': ''},
+            {'name': 'close', 'expr': ['byte', 0x00], 'mod': ''}]},
+        {'k': 'rule', 'name': 'Body', 'expr': hook('h3', ['star', ['alt', ['left', ['ref', 'Chunk'], ['byte', 0x2C]],
+                                                                 ['left', ['ref', 'Chunk'], ['byte', 0x3B]], ['ref', 'Chunk']]])},
+        {'k': 'rule', 'name': 'Chunk', 'expr': hook('h4', ['alt', ['right', ['byte', 0x11], ['ref', 'Pair']],
+                                                           ['seq', ['expect', ['ref', 'Pair']], ['ref', 'Pair']],
+                                                           ['hookv', 'h5', ['bre', '[\\x01-\\x0F]']]])},
+        {'k': 'class', 'name': 'Pair', 'fields': [
+            {'name': 'a', 'expr': ['blit', 'ab'], 'mod': ''},
+            {'name': 'b', 'expr': ['opt', ['bre', '[\\x20-\\x7E]+']], 'mod': ''}]},
+    ]
+    g = Gen(rng, features=[])
+    for i, it in enumerate(items):
+        g.table[it['name']] = {'rank': float(i), 'nullable': it['name'] in ('start', 'Body'), 'kind': it['k']}
+    def doc(body, close='\x00', open_='\xff'):
+        return 'e' + open_ + body + close
+    texts = [doc('abxy,\x01;\x11ab'), doc('') + doc('ab zz'), doc('\x02\x03ab', close=''), doc('abq', open_='\xfe') + 'e',
+             doc('\x11ab,\x11ab;\x11abw\x05'), 'e\xff', doc('abab,abab;ab' * 3), doc('\x01' * 6 + 'ab~')]
+    return {'named': bool(named), 'extends': None, 'items': items, 'binary': True}, g, texts
+
+
 def gen_variant(rng, spec_, gen, parent_gen=None, toggle_ignore=True):
     """The same module edited: same rule names, ranks and kinds, one or two bodies regenerated,
     the ignore declaration possibly toggled ("edit the base, re-run everything").
@@ -850,6 +896,12 @@ class Sampler:
         if k == 're':
             s = RE_TABLE.get(e[1], (True, ['']))[1]
             return [r.choice(s)]
+        if k == 'byte':
+            return [chr(e[1])]
+        if k == 'blit':
+            return [e[1]]
+        if k == 'bre':
+            return [r.choice(BRE_TABLE.get(e[1], (True, ['']))[1])]
         if k == 'ref':
             if bind and e[1] in bind:
                 return self.expr(bind[e[1]], depth + 1, None)
